@@ -45,7 +45,7 @@ ValueOK(e, i, D) ==
   /\ e.res[i].out.t # "none" /\ Reproduced(e.unit.defs, e.unit.schema, e.unit.docs[i], e.res[i].out, D)
 
 Class(e, i) ==
-  LET ref == RefV(e, i)  o == ObsV(e.res[i])  impl == ImplV(e, i, Devs) IN
+  LET ref == RefV(e, i)  o == ObsV(e.res[i])  impl == ImplV(e, i, Devs \ {"YamlIntInMixedEnum"}) IN
   IF ref = Un THEN "un"
   ELSE IF o = ref /\ Judge = "value" /\ ref = Acc /\ ~ValueOK(e, i, {}) THEN
        (IF ValueOK(e, i, Devs) THEN "known" ELSE "violation")
@@ -54,6 +54,52 @@ Class(e, i) ==
   \* with Devs is itself undetermined ("un") it predicts nothing and either observation conforms
   ELSE IF o = impl \/ impl = Un THEN "known"
   ELSE "violation"
+
+(* ---- C17 (Judge = "yaml"): res holds three results per document: JSON, YAML flow text, YAML block text ---- *)
+YJ(e, i) == e.res[3 * i - 2]   Y1(e, i) == e.res[3 * i - 1]   Y2(e, i) == e.res[3 * i]
+YamlSame(j, y) == ObsV(y) = ObsV(j) /\ (ObsV(j) = Acc => JEq(y.val, j.val))
+\* in scope: valid documents and documents whose only faults are required / bound / length / pattern /
+\* enum violations (every value has the JSON type its position declares)
+YamlInScope(e, i) == RefV(e, i) # Un /\ TypeClean(e.unit.defs, e.unit.schema, e.unit.docs[i])
+\* The YAML path is the as-is model without the deviations that exist only on the JSON path (encoding/json's
+\* case-insensitive key matching; UnmarshalJSON being called with null) and with the YAML-only ones.
+JsonOnly == {"CaseInsensitiveKeyBinding", "EnumNullDefault", "AddlNullPanics"}
+YamlOnly == {"YamlIntInMixedEnum"}
+JsonV(e, i) == ImplV(e, i, Devs \ YamlOnly)
+YamlV(e, i) == ImplV(e, i, Devs \ JsonOnly)
+HasKey(s, k) == k \in DOMAIN s
+RECURSIVE MentionsFormat(_, _)
+MentionsFormat(s, F) ==
+  \/ (HasKey(s, "format") /\ s.format \in F)
+  \/ (HasKey(s, "items") /\ MentionsFormat(s.items, F))
+  \/ (HasKey(s, "properties") /\ \E k \in DOMAIN s.properties : MentionsFormat(s.properties[k].s, F))
+UnitMentionsFormat(e, F) == MentionsFormat(e.unit.schema, F) \/ \E k \in DOMAIN e.unit.defs : MentionsFormat(e.unit.defs[k].s, F)
+RECURSIVE DocHasNullElem(_)
+DocHasNullElem(d) ==
+  CASE d.t = "arr" -> \E k \in DOMAIN d.a : d.a[k].t = "null" \/ DocHasNullElem(d.a[k])
+    [] d.t = "obj" -> \E k \in DOMAIN d.o : DocHasNullElem(d.o[k].v)
+    [] OTHER -> FALSE
+YamlClass(e, i) ==
+  IF ~YamlInScope(e, i) THEN "un"
+  ELSE IF YamlSame(YJ(e, i), Y1(e, i)) /\ YamlSame(YJ(e, i), Y2(e, i)) THEN "ok"
+  \* exact prediction of a difference by the two as-is models (verdicts; where both accept, the decoded
+  \* values may differ only if a JSON-only or YAML-only deviation applies to this document)
+  ELSE IF /\ JsonV(e, i) # YamlV(e, i) \/ (\E x \in (JsonOnly \cup YamlOnly) \cap Devs : ImplV(e, i, Devs \ {x}) # ImplV(e, i, Devs))
+             \/ (ObsV(YJ(e, i)) = Acc /\ ObsV(Y1(e, i)) = Acc /\ ObsV(Y2(e, i)) = Acc /\ "CaseInsensitiveKeyBinding" \in Devs
+                 /\ \E k \in ObjKeys(e.unit.docs[i]) : FoldsTo(k) # k)
+          /\ (JsonV(e, i) = Un \/ ObsV(YJ(e, i)) = JsonV(e, i))
+          /\ (YamlV(e, i) = Un \/ (ObsV(Y1(e, i)) = YamlV(e, i) /\ ObsV(Y2(e, i)) = YamlV(e, i)))
+       THEN "known"
+  \* types.SerializableDate / SerializableTime have no YAML unmarshalling: the YAML path rejects valid values
+  ELSE IF /\ "YamlFormatTypesUnsupported" \in Devs /\ UnitMentionsFormat(e, {"date", "time"})
+          /\ ObsV(YJ(e, i)) = RefV(e, i) /\ ObsV(Y1(e, i)) = Rej /\ ObsV(Y2(e, i)) = Rej THEN "known"
+  \* yaml.v3 skips null elements when decoding a sequence into a slice of non-pointer elements
+  ELSE IF /\ "YamlNullArrayElemDropped" \in Devs /\ DocHasNullElem(e.unit.docs[i])
+          /\ ObsV(YJ(e, i)) = Acc /\ ObsV(Y1(e, i)) = Acc /\ ObsV(Y2(e, i)) = Acc THEN "known"
+  ELSE "violation"
+YamlReport(n, e, i, c) ==
+  PrintT("REPORT " \o ToJson([l |-> n, i |-> i, class |-> c, kind |-> "yaml", devs |-> <<"YamlFormatTypesUnsupported">>,
+                             ref |-> ObsV(YJ(e, i)), obs |-> ObsV(Y1(e, i)) \o "/" \o ObsV(Y2(e, i)), impl |-> "-"]))
 
 Report(n, e, i, c) ==
   PrintT("REPORT " \o ToJson([l |-> n, i |-> i, class |-> c,
@@ -120,6 +166,14 @@ Step(n, e, t) ==
      LET c == BuildClass(e) IN
      IF BuildReport(n, e, c)
      THEN [t EXCEPT !.known = @ + (IF c = "known" THEN 1 ELSE 0), !.viol = @ + (IF c = "violation" THEN 1 ELSE 0)]
+     ELSE t
+  ELSE IF Judge = "yaml" THEN
+     LET cls == [i \in 1..(Len(e.res) \div 3) |-> YamlClass(e, i)] IN
+     IF \A i \in DOMAIN cls : cls[i] \in {"ok", "un"} \/ YamlReport(n, e, i, cls[i])
+     THEN [ok |-> t.ok + Count(cls, "ok"), un |-> t.un + Count(cls, "un"), known |-> t.known + Count(cls, "known"),
+           viol |-> t.viol + Count(cls, "violation"), drift |-> t.drift,
+           acc |-> t.acc + Cardinality({i \in DOMAIN cls : cls[i] # "un" /\ RefV(e, i) = Acc}),
+           rej |-> t.rej + Cardinality({i \in DOMAIN cls : cls[i] # "un" /\ RefV(e, i) = Rej})]
      ELSE t
   ELSE
   LET cls0 == [i \in DOMAIN e.res |-> Class(e, i)]
